@@ -3,6 +3,7 @@ import PdeVerif.Lemmas.Mesh
 import PdeVerif.Lemmas.MeshNd
 import PdeVerif.Lemmas.MeshGeom
 import PdeVerif.Lemmas.Basic
+import Mathlib.Algebra.BigOperators.Ring.List
 /-
 C17 - splitting a grid into sub-grids changes nothing.
 
@@ -114,6 +115,12 @@ theorem slices_tile (sizes : List Nat) (num : Nat) (hsum : sizes.sum = num) (g :
     simp only [gadd, Bool.false_eq_true, if_false, Nat.add_zero] at a b
     exact chunk_unique sizes ⟨a, b⟩ ⟨h2, h3⟩
 
+
+/-- one axis, data as a list: cutting the data into the chunks of the slices and concatenating
+them again is the identity (the list form of `combine ∘ extract = id`, design appendix A.15) -/
+theorem combine_extract_id_list {α : Type} (sizes : List Nat) (data : List α) (h : data.length = sizes.sum) :
+    (extractAll data (slices1d false sizes)).flatten = data := by
+  simpa [slices1d] using combine_extract_list_aux sizes [] data h
 
 /-! ## any number of axes -/
 
@@ -580,6 +587,87 @@ theorem volumes_add_up (F : K → K) (lo hi : K) (sizes : List Nat) (hpos : 0 < 
     have e2 : lattice lo hi sizes.sum 0 = lo := by
       rw [lattice_eq_lat _ _ _ _ hpos]; simp [lat]
     rw [e1, e2]
+
+theorem sum_range_mul (f g : Nat → K) (n P : Nat) :
+    ((List.range (n * P)).map fun id => f (id / P) * g (id % P)).sum
+      = ((List.range n).map f).sum * ((List.range P).map g).sum := by
+  rcases Nat.eq_zero_or_pos P with hP | hP
+  · subst hP; simp
+  induction n with
+  | zero => simp
+  | succ n ih =>
+    have e : (n + 1) * P = n * P + P := by ring
+    rw [e, List.range_add, List.map_append, List.sum_append, ih, List.range_succ, List.map_append,
+      List.sum_append, List.map_map]
+    have : (List.range P).map ((fun id => f (id / P) * g (id % P)) ∘ fun x => n * P + x)
+        = (List.range P).map fun r => f n * g r := by
+      apply List.map_congr_left
+      intro r hr
+      have hr' : r < P := List.mem_range.1 hr
+      simp only [Function.comp]
+      have e1 : (n * P + r) / P = n := by
+        rw [Nat.add_comm, Nat.add_mul_div_right _ _ hP, Nat.div_eq_of_lt hr', Nat.zero_add]
+      have e2 : (n * P + r) % P = r := by
+        rw [Nat.add_comm, Nat.add_mul_mod_self_right, Nat.mod_eq_of_lt hr']
+      rw [e1, e2]
+    rw [this, List.sum_map_mul_left]
+    simp
+    ring
+
+theorem map_range_getD {α β : Type} (l : List α) (d : α) (h : α → β) :
+    (List.range l.length).map (fun i => h (l.getD i d)) = l.map h := by
+  induction l with
+  | nil => simp
+  | cons x xs ih =>
+    rw [List.length_cons, List.range_succ_eq_map, List.map_cons, List.map_map]
+    simp only [List.getD_cons_zero, List.map_cons]
+    congr 1
+
+theorem bounds1d_length (lo hi : K) (sizes : List Nat) : (bounds1d lo hi sizes).length = sizes.length := by
+  unfold bounds1d
+  split_ifs with h
+  · simp [h]
+  · exact boundsFrom_length lo hi _ 0 sizes
+
+/-- **volumes add up, any number of axes** (Cartesian grids): the volumes of all sub-grids of the
+mesh sum to the volume of the base grid -/
+theorem volumes_add_up_nd (axes : List (List Nat)) (hpos : ∀ sizes ∈ axes, 0 < sizes.sum)
+    (bs : List (K × K)) (hlen : bs.length = axes.length) :
+    ((List.range (axes.map List.length).prod).map fun id =>
+        volCoef .cartesian (subBounds bs axes (unravel (axes.map List.length) id))).sum
+      = volCoef .cartesian bs := by
+  induction axes generalizing bs with
+  | nil =>
+    cases bs with
+    | nil => simp [volCoef, subBounds, unravel]
+    | cons _ _ => simp at hlen
+  | cons sizes ax ih =>
+    cases bs with
+    | nil => simp at hlen
+    | cons b bs' =>
+      obtain ⟨lo, hi⟩ := b
+      have hlen' : bs'.length = ax.length := by simpa using hlen
+      have ih' := ih (fun s hs => hpos s (List.mem_cons_of_mem _ hs)) bs' hlen'
+      have hs := hpos sizes (List.mem_cons_self ..)
+      simp only [List.map_cons, List.prod_cons, unravel, subBounds]
+      have step : ∀ id, volCoef GridKind.cartesian
+            ((bounds1d lo hi sizes).getD (id / (ax.map List.length).prod) (lo, hi) ::
+              subBounds bs' ax (unravel (ax.map List.length) (id % (ax.map List.length).prod)))
+          = (fun i => ((bounds1d lo hi sizes).getD i (lo, hi)).2 - ((bounds1d lo hi sizes).getD i (lo, hi)).1)
+              (id / (ax.map List.length).prod)
+            * (fun r => volCoef GridKind.cartesian (subBounds bs' ax (unravel (ax.map List.length) r)))
+              (id % (ax.map List.length).prod) := by
+        intro id; simp [volCoef]
+      simp only [step]
+      refine (sum_range_mul
+        (fun i => ((bounds1d lo hi sizes).getD i (lo, hi)).2 - ((bounds1d lo hi sizes).getD i (lo, hi)).1)
+        (fun r => volCoef GridKind.cartesian (subBounds bs' ax (unravel (ax.map List.length) r))) _ _).trans ?_
+      rw [ih']
+      have e := map_range_getD (bounds1d lo hi sizes) (lo, hi) (fun b : K × K => b.2 - b.1)
+      rw [bounds1d_length] at e
+      rw [e, volumes_add_up (fun x => x) lo hi sizes hs]
+      simp [volCoef]
+
 
 end bounds
 
